@@ -30,6 +30,7 @@ var noopPrefixes = []string{
 	"github.com/prometheus/client_golang",
 	"github.com/attestantio/dirk/util/loggers",
 	"github.com/uber/jaeger",
+	"go.opentelemetry.io/contrib",
 }
 
 func isNoopPkg(path string) bool {
@@ -47,7 +48,8 @@ var modelledPrefixes = []string{
 	"github.com/herumi/bls-eth-go-binary",
 	"github.com/ferranbt/fastssz",
 	"github.com/spf13/viper",
-	"google.golang.org/grpc",
+	"google.golang.org/grpc/grpclog",
+	"google.golang.org/grpc/internal",
 	"reflect",
 	"unsafe",
 	"encoding/gob",
@@ -65,7 +67,12 @@ var modelledPrefixes = []string{
 	"syscall",
 }
 
+var modelledExact = map[string]bool{"google.golang.org/grpc": true}
+
 func isModelledPkg(path string) bool {
+	if modelledExact[path] {
+		return true
+	}
 	for _, p := range modelledPrefixes {
 		if path == p || strings.HasPrefix(path, p+"/") {
 			return true
